@@ -181,11 +181,16 @@ def addCats : List (Nat × Bool) → List (Nat × Bool) → Option (List (Nat ×
     | some true => addCats cs rest
     | some false => addCats (cs ++ [c]) rest
 
+/-- what `mergeCls` answers when the third normal form of `canonicalize` would apply (ranges that omit
+    exactly one rune, and categories: the engine asks the categories about that rune — Unicode knowledge the
+    model does not have).  No engine set looks like this; leg Rs counts such cases as unmodelled. -/
+def norm3Sentinel : Cls := .base true [] []
+
 open RegexVerif.Class in
 /-- the set that `prev.addSet(nd)` / `prev.addChar(ch)` leaves in `prev` for two mergeable
     (positive, subtraction-free) classes: ranges appended, categories added, `canonicalize` (sort +
-    merge, then the "everything but one gap" / "everything" normal forms).  `none`: the third normal
-    form of `canonicalize` (it asks the categories about one rune) would apply — not modelled. -/
+    merge, then the "everything but one gap" / "everything" normal forms; the third normal form:
+    `norm3Sentinel`).  `none`: not both mergeable. -/
 def mergeCls : Cls → Cls → Option Cls
   | .base false rs ns, .base false rs' ns' =>
     if rs.isEmpty && rs'.isEmpty then
@@ -202,7 +207,7 @@ def mergeCls : Cls → Cls → Option Cls
       if !f1.neg && !f1.cats.isEmpty &&
           (match f1.ranges with
            | [r0, r1] => decide (r0.1 = 0 ∧ r0.2 + 2 = r1.1 ∧ r1.2 = maxRune)
-           | _ => false) then none
+           | _ => false) then some norm3Sentinel
       else some (.base f1.neg f1.ranges f1.cats)
   | _, _ => none
 
@@ -314,22 +319,26 @@ def addHi : Option Nat → Option Nat → Option Nat
   | some a, some b => some (a + b)
   | _, _ => none
 
+/-- the `Options` word proper (without the stale `Ch` the exporter folds into it, see `mergedOpts`):
+    the adjacent-loop rules compare `Options` and the set, not `Ch` -/
+def optsWord (o : Nat) : Nat := o % 65536
+
 /-- what `reduceConcatenationWithAdjacentLoops` does with `current` and `next`:
     `none` — nothing; `some (cur', none)` — `next` is absorbed; `some (cur', some next')` — part of
     a Multi is absorbed and the trimmed `next'` becomes the current node -/
 def combineFull (rtl : Bool) : RNode → RNode → Option (RNode × Option RNode)
   | .cloop o k p lo hi, .cloop o' k' p' lo' hi' =>
-    if o = o' ∧ k = k' ∧ p = p' then
+    if optsWord o = optsWord o' ∧ k = k' ∧ p = p' then
       if k = .atomic ∧ 0 < lo' then none
       else if !canCombine lo hi lo' hi' then none
       else some (.cloop o k p (lo + lo') (addHi hi hi'), none)
     else none
   | .cloop o k p lo hi, .chr o' p' =>
-    if o = o' ∧ p = p' ∧ k ≠ .atomic then
+    if optsWord o = optsWord o' ∧ p = p' ∧ k ≠ .atomic then
       if canCombine lo hi 1 (some 1) then some (.cloop o k p (lo + 1) (addHi hi (some 1)), none) else none
     else none
   | .cloop o k (.one c) lo hi, .multi o' s =>
-    if o = o' ∧ k ≠ .atomic ∧ s.head? = some c ∧ rtl = false then
+    if optsWord o = optsWord o' ∧ k ≠ .atomic ∧ s.head? = some c ∧ rtl = false then
       let n := (s.takeWhile (· == c)).length
       if canCombine lo hi n (some n) then
         some (.cloop o k (.one c) (lo + n) (addHi hi (some n)),
@@ -340,11 +349,11 @@ def combineFull (rtl : Bool) : RNode → RNode → Option (RNode × Option RNode
       else none
     else none
   | .chr o p, .cloop o' k p' lo' hi' =>
-    if o = o' ∧ p = p' then
+    if optsWord o = optsWord o' ∧ p = p' then
       if canCombine 1 (some 1) lo' hi' then some (.cloop o k p (lo' + 1) (addHi hi' (some 1)), none) else none
     else none
   | .chr o p, .chr o' p' =>
-    if o = o' ∧ p = p' ∧ isOneCP p = false then
+    if optsWord o = optsWord o' ∧ p = p' ∧ isOneCP p = false then
       some (.cloop o .greedy p 2 (some 2), none)
     else none
   | _, _ => none
